@@ -155,7 +155,10 @@ class YAMLPath:
         popped_queue.append(popped_segment)
         removable_segment = YAMLPath._stringify_yamlpath_segments(
             popped_queue, self.separator)
-        prefixed_segment = "{}{}".format(self.separator, removable_segment)
+        prefixed_segment = removable_segment
+        if not removable_segment.startswith(str(self.separator)):
+            # Forward-slash notation already renders the joining separator
+            prefixed_segment = "{}{}".format(self.separator, removable_segment)
         path_now = self.original
 
         bracketed_segment = "[&{}]".format(popped_segment[1])
